@@ -5,6 +5,7 @@ use crate::common::*;
 use crate::machine::*;
 use crate::ops::*;
 use crate::Explored;
+use corgi::array::Array;
 use serde_json::json;
 
 fn leaves(var: u64) -> Vec<LeafSpec> {
@@ -172,8 +173,156 @@ fn source_audit() -> serde_json::Value {
     json!({"unsafe_outside_blas": unsafe_sites, "values_field": values_decl})
 }
 
+/// A user-defined layer (the trait is public): y = x * w, plus parameters that its forward pass
+/// never uses, listed before or after `w`.
+struct SpareLayer {
+    w: Array,
+    spares: Vec<Array>,
+    spares_first: bool,
+}
+
+impl corgi::layer::Layer for SpareLayer {
+    fn forward(&self, input: Array) -> Array {
+        &input * &self.w
+    }
+    fn parameters(&mut self) -> Vec<&mut Array> {
+        let mut out: Vec<&mut Array> = Vec::new();
+        if self.spares_first {
+            out.extend(self.spares.iter_mut());
+            out.push(&mut self.w);
+        } else {
+            out.push(&mut self.w);
+            out.extend(self.spares.iter_mut());
+        }
+        out
+    }
+}
+
+/// Model::update over layers with parameters that received no gradient: those parameter handles,
+/// and every older handle, stay bit-identical - whatever their values happen to equal.
+fn explore_model_spares(opts: &Opts) -> Local {
+    use corgi::layer::Layer;
+    use corgi::numbers::Float;
+    let var = opts.seed % 3;
+    let wv: Vec<Float> = vec![0.5, -1.0 + var as Float, 2.0];
+    let xv: Vec<Float> = vec![1.0, 2.0, -0.5, 3.0, 0.25, 1.5];
+    let tv: Vec<Float> = vec![0.0, 1.0, 2.0, -1.0, 0.5, 0.0];
+    let lr: Float = 0.5;
+    // spare value kinds: 0 equal to w, 1 equal to w after its update, 2 unrelated, 3 zeros
+    let mut cases: Vec<(bool, Vec<u8>, bool, bool)> = Vec::new();
+    for spares_first in [false, true] {
+        for kinds in [vec![0u8], vec![1], vec![2], vec![3], vec![0, 0], vec![0, 2], vec![2, 0], vec![1, 0]] {
+            for tracked in [true, false] {
+                for two_layers in [false, true] {
+                    cases.push((spares_first, kinds.clone(), tracked, two_layers));
+                }
+            }
+        }
+    }
+    par(opts, cases.len(), |i, l| {
+        let (spares_first, kinds, tracked, two_layers) = &cases[i];
+        let case = || format!("model with unused parameters: spares {:?} {} w, spares tracked={}, {} layer(s)", kinds, if *spares_first { "before" } else { "after" }, tracked, if *two_layers { 2 } else { 1 });
+        if !l.want(&case) {
+            return;
+        }
+        l.states += 1;
+        l.transitions += 1;
+        l.validated += 1;
+        let (wv, xv, tv) = (wv.clone(), xv.clone(), tv.clone());
+        let r = run_catch(move || {
+            let mut msgs: Vec<String> = Vec::new();
+            // the values w takes after its first step in the one-layer model (computed on a separate copy)
+            let new_w: Vec<Float> = {
+                let w = Array::from((vec![3], wv.clone())).tracked();
+                let x = Array::from((vec![2, 3], xv.clone()));
+                let t = Array::from((vec![2, 3], tv.clone()));
+                let out = &x * &w;
+                let out = if *two_layers { &out * &w } else { out };
+                let cost = corgi::cost::mse();
+                let e = cost(&out, &t);
+                e.backward(None);
+                let g = w.gradient().clone().unwrap();
+                wv.iter().zip(g.values()).map(|(p, q)| *p - lr * *q).collect()
+            };
+            let _ = &new_w;
+            let mk = |kind: u8| -> Vec<Float> {
+                match kind {
+                    0 => wv.clone(),
+                    1 => new_w.clone(),
+                    2 => vec![7.0, 8.0, 9.0],
+                    _ => vec![0.0; 3],
+                }
+            };
+            let build = |first: bool| -> SpareLayer {
+                SpareLayer {
+                    w: Array::from((vec![3], wv.clone())).tracked(),
+                    spares: kinds.iter().map(|k| { let a = Array::from((vec![3], mk(*k))); if *tracked { a.tracked() } else { a } }).collect(),
+                    spares_first: first,
+                }
+            };
+            let mut l1 = build(*spares_first);
+            let mut l2 = build(!*spares_first);
+            let held: Vec<Array> = l1.spares.iter().chain(l2.spares.iter()).cloned().collect();
+            let held_w = l1.w.clone();
+            let before: Vec<(Vec<usize>, Vec<Float>, bool)> = held.iter().map(|a| (a.dimensions().to_vec(), a.values().to_vec(), crate::checks::c09::is_tracked(a))).collect();
+            let gd = corgi::optimizer::gd::GradientDescent::new(lr);
+            let cost = corgi::cost::mse();
+            {
+                let mut layers: Vec<&mut dyn Layer> = vec![&mut l1];
+                if *two_layers {
+                    layers.push(&mut l2);
+                }
+                let mut model = corgi::model::Model::new(layers, &gd, &cost);
+                for _ in 0..2 {
+                    let _ = model.forward(Array::from((vec![2, 3], xv.clone())));
+                    let _ = model.backward(Array::from((vec![2, 3], tv.clone())));
+                    model.update();
+                }
+            }
+            let after: Vec<&Array> = l1.spares.iter().chain(l2.spares.iter()).collect();
+            for (k, (a, b)) in after.iter().zip(&before).enumerate() {
+                if a.dimensions() != &b.0[..] || a.values().iter().zip(&b.1).any(|(x, y)| x.to_bits() != y.to_bits()) || a.values().len() != b.1.len() {
+                    msgs.push(format!("unused parameter {} was {:?} {} and is {:?} {} after the updates", k, b.0, fmt_vals(&b.1), a.dimensions(), fmt_vals(a.values())));
+                }
+                if crate::checks::c09::is_tracked(a) != b.2 {
+                    msgs.push(format!("unused parameter {}: tracking flag changed", k));
+                }
+                if a.gradient().is_some() {
+                    msgs.push(format!("unused parameter {} holds a gradient", k));
+                }
+            }
+            for (k, (a, b)) in held.iter().zip(&before).enumerate() {
+                if a.dimensions() != &b.0[..] || a.values().iter().zip(&b.1).any(|(x, y)| x.to_bits() != y.to_bits()) {
+                    msgs.push(format!("the older handle of unused parameter {} changed", k));
+                }
+            }
+            if held_w.values() != &wv[..] {
+                msgs.push("the older handle of w changed".into());
+            }
+            if l1.w.values() == &wv[..] {
+                msgs.push("w did not move".into());
+            }
+            if !*two_layers && l2.w.values() != &wv[..] {
+                msgs.push("a layer outside the model changed".into());
+            }
+            msgs
+        });
+        match r {
+            Err(m) => l.violation("model-unused-parameters", case(), format!("panicked: {}", m)),
+            Ok(msgs) => {
+                l.outcome(digest_str(&format!("{}{}", case(), msgs.len())));
+                if !msgs.is_empty() {
+                    l.violation("model-unused-parameters", case(), msgs.join("; "));
+                }
+            }
+        }
+        l.sample(&case);
+    })
+}
+
 pub fn explore(opts: &Opts) -> Explored {
-    let (local, stats) = run_all(opts, machines(opts));
+    let (mut local, stats) = run_all(opts, machines(opts));
+    local.merge(explore_model_spares(opts));
     Explored {
         local,
         bounds: json!({"machines": stats, "source_audit_supporting_information_only": source_audit()}),
